@@ -1,6 +1,7 @@
 """C16 - JSON views of a match ({.}, {#}, {.#}) are valid, faithful and deterministic."""
 import json
 import os
+import re
 from vf import Inconclusive, parallel, require_clean, validate_traces, vfj_lines, b2s
 
 CLAIM = {
@@ -21,7 +22,18 @@ CLAIM = {
             "processes) and the recorded output BYTES, plus seeded random captures of up to 200 bytes and `rare histogram/filter/"
             "expression` runs in fresh processes, are validated by TLC against the requirement; all texts of one match must be equal and "
             "identical lines must form ONE histogram group. The TLA+ recogniser/decoder itself is cross-checked against encoding/json "
-            "on every recorded text and on mutated texts.",
+            "on every recorded text and on mutated texts. "
+            "HISTORIES: MiniJsonHist.tla states the property over whole histories of evaluations by a long-lived evaluator - every text "
+            "meets the requirement for the captures of ITS match and matches with equal captures and view carry equal texts (the text is a "
+            "function of the captures only, not of source, line number, worker or earlier evaluations). MiniJsonCtx.tla models the "
+            "extractor's workers, each owning one expression context that is reused for every line of every source (line numbers restart "
+            "per source), batches handed to any idle worker, the ignore set and the extraction evaluating views on the same context; TLC "
+            "proves the history law for the context as written and for memoisation keyed by the captures or by (source, line), and REFUTES "
+            "it for memoisation keyed by the line number alone (negative control: the counterexample gives one worker two sources back to "
+            "back; the classifier names it stale-view). TLC-enumerated multi-source scenarios and seeded random ones run through "
+            "extractor.New with one and with several workers, with and without a recording ignore set, and `rare filter` runs over several "
+            "files; the recorded histories are validated by TLC with the same law. A panic of the real code is recorded as an observation "
+            "(recovered inside the worker through the ignore-set hook, or the death of a rare process) and is a violation.",
     "note": "Demanded: byte-level JSON syntax (as encoding/json.Valid); UTF-8 well-formedness of the output is NOT demanded when a capture "
             "holds ill-formed bytes (counted in the evidence). A member for an empty capture may be present or absent; member order is "
             "free (only stability is demanded). Group names outside [A-Za-z_][A-Za-z0-9_]* (dissect allows any text; numeric names collide "
@@ -40,15 +52,62 @@ def mc_cfg(n, numlen, pool3):
             % (n, numlen, pool3, ALL_LAWS))
 
 
-def gen_cfg(n, seed, slices, pool3):
-    return ("INIT Init\nNEXT Next\nCONSTANTS N = %d\n Seed = %d\n Slices = %d\n Pool3 = %d\nINVARIANTS Dump\nCHECK_DEADLOCK FALSE\n"
-            % (n, seed, slices, pool3))
+def gen_cfg(n, seed, slices, pool3, hpool):
+    return ("INIT Init\nNEXT Next\nCONSTANTS N = %d\n Seed = %d\n Slices = %d\n Pool3 = %d\n HPool = %d\nINVARIANTS Dump\nCHECK_DEADLOCK FALSE\n"
+            % (n, seed, slices, pool3, hpool))
+
+
+def ctx_cfg(caches, invariants, lines="MCLines2", views="MCViews2", nsrc=2, maxlen=2, maxtotal=3, workers=2, maxeval=2):
+    return ("INIT Init\nNEXT Next\nCONSTANTS Names <- MCNames\n Lines <- %s\n NSrc = %d\n MaxLen = %d\n MaxTotal = %d\n NWorkers = %d\n"
+            " Views <- %s\n MaxEval = %d\n Caches = {%s}\nINVARIANTS %s\nCHECK_DEADLOCK FALSE\n"
+            % (lines, nsrc, maxlen, maxtotal, workers, views, maxeval, ", ".join('"%s"' % c for c in caches), " ".join(invariants)))
+
+
+class RealCrash(Exception):
+    """a driver process died from a panic raised inside rare's own code (not recovered by the driver)"""
+
+
+def _drv(run, args, **kw):
+    try:
+        return run.drv(args, **kw)
+    except Inconclusive as e:
+        msg = str(e)
+        m = re.search(r"^(panic: .*|fatal error: .*)$", msg, re.M)
+        if m:
+            # the first frame below the runtime's own: is it rare's code?
+            frames = [ln for ln in msg[m.end():].splitlines() if re.match(r"^[\w./*()\[\]-]+\(", ln) and not ln.startswith(("runtime.", "panic(", "internal/"))]
+            if frames and frames[0].startswith(("rare/pkg/", "rare/cmd/")):
+                raise RealCrash("%s in %s (driver %s)\n%s" % (m.group(1), frames[0].split("(")[0], args[0], msg[m.start():m.start() + 1500]))
+        raise
 
 
 def _canaries(rec):
     """deliberately corrupted copies of a real, accepted-looking record; each must be rejected by TLC"""
     out = []
-    if rec["k"] not in ("view", "ops") or bytes(rec["out"]) == b"{}" or rec["alts"]:
+    if rec["k"] == "hist" and "crash" not in rec:
+        evs = rec["evs"]
+        pair = next(((i, j) for i in range(len(evs)) for j in range(i + 1, len(evs))
+                     if evs[i]["groups"] != evs[j]["groups"] and evs[i]["out"] != evs[j]["out"]
+                     and not evs[i]["crash"] and not evs[j]["crash"]), None)
+        if pair:                                         # the text of another match of the history
+            a = json.loads(json.dumps(rec))
+            a["evs"][pair[1]]["out"] = a["evs"][pair[0]]["out"]
+            a["evs"][pair[1]]["gov"] = a["evs"][pair[0]]["gov"]
+            a["canary"] = "stale-view"
+            out.append(a)
+        if evs and not evs[0]["crash"] and bytes(evs[0]["out"]) != b"{}":
+            b = json.loads(json.dumps(rec))              # the same match once more, with another (acceptable) text
+            e2 = json.loads(json.dumps(evs[0]))
+            e2["out"] = e2["out"][:-1] + [32, 125]
+            b["evs"].append(e2)
+            b["canary"] = "nondeterministic"
+            out.append(b)
+            c = json.loads(json.dumps(rec))              # an evaluation that did not return
+            c["evs"][-1]["crash"] = True
+            c["canary"] = "crash"
+            out.append(c)
+        return out
+    if rec["k"] not in ("view", "ops") or "crash" in rec or bytes(rec["out"]) == b"{}" or rec["alts"]:
         return out
     a = json.loads(json.dumps(rec))
     a["out"] = a["out"] + [125]                      # trailing brace: not one object
@@ -71,7 +130,32 @@ def _canaries(rec):
     return out
 
 
-def _describe(rec):
+def _describe(rec, i=0):
+    if "crash" in rec:
+        what = {"view": "evaluating a view of the match with groups %s" % [b2s(g) for g in rec.get("groups", [])],
+                "ops": "builder calls %s" % [(o["op"], bytes(o["key"]).decode("latin1"), b2s(o["val"])) for o in rec.get("ops", [])],
+                "hist": "rare %s" % " ".join(rec.get("argv", [])[:8]),
+                "histo": "rare histogram -e {.} over lines with groups %s" % [b2s(g) for g in rec.get("groups", [])],
+                "mhisto": "rare %s" % " ".join(rec.get("argv", [])[:8])}[rec["k"]]
+        return "%s (%s) did not return a text - the real code panicked: %s" % (what, rec.get("src", "cli"), rec["crash"])
+    if rec["k"] == "hist":
+        e = rec["evs"][i - 1]
+        view = ("." if e["named"] else "") + ("#" if e["numbered"] else "")
+        how = ("rare %s" % " ".join(rec["argv"][:10])) if rec.get("argv") else (
+            "extractor.New with %d worker(s), %d sources, batches of %s line(s), ignore set evaluating a view %d time(s) first"
+            % (rec["workers"], rec["sources"], rec["batch"] or "all", rec["probes"]))
+        if e["crash"]:
+            return "%s: the evaluation of {%s} for source %d line %d (groups %s) panicked: %s" % (
+                how, view, e["s"], e["line"], [b2s(g) for g in e["groups"]], rec.get("panics", ["?"])[:1])
+        others = ["source %d line %d groups %s -> %s" % (o["s"], o["line"], [b2s(g) for g in o["groups"]], b2s(o["out"]))
+                  for k, o in enumerate(rec["evs"]) if k != i - 1 and (o["out"] == e["out"]) != (o["groups"] == e["groups"])][:2]
+        return "%s: {%s} (%s phase) for source %d line %d with groups %s and names %s gave %s; in the same history: %s" % (
+            how, view, e["phase"], e["s"], e["line"], [b2s(g) for g in e["groups"]],
+            [(bytes(n[0]).decode("latin1"), n[1]) for n in rec["names"]], b2s(e["out"]), others)
+    if rec["k"] == "mhisto":
+        return "rare %s over files whose distinct matches are %s reported %d groups: %s" % (
+            " ".join(rec["argv"][:9]), [([b2s(g) for g in c["groups"][1:]], c["count"]) for c in rec["classes"]], rec["ngroups"],
+            [(b2s(r[0]), r[1]) for r in rec["rows"]][:5])
     if rec["k"] == "view":
         view = ("." if rec["named"] else "") + ("#" if rec["numbered"] else "")
         s = "match with groups %s and names %s evaluated with {%s} (%s, %d evaluations) gave %s" % (
@@ -111,11 +195,17 @@ def _check(run):
         "the bare 007); exact decimal equality for exponents of at most 6 digits, otherwise identical spelling; true/false only for ASCII "
         "spellings of true/false in any letter case; null is never acceptable",
         "rare expression -d/-k (cmd/expressions.go) is checked as a direct use of the builder: members 0..n-1 for -d, the -k pairs",
+        "histories: the sources of one run have distinct names and (source, line number) is never handed out twice with different "
+        "content (so memoisation keyed by source AND line would be acceptable); which worker evaluates which batch is not observed "
+        "and not demanded - only that every text belongs to the captures of its own match, whatever the schedule",
+        "a panic is a violation for every input (also outside the domain of identifier names); it is observed through the ignore-set "
+        "hook of extractor.Config (recover inside the worker goroutine), through recover around direct builder calls, and as the "
+        "death of a `rare` process with a Go panic on stderr",
     ]
     run.build_harness()
     rare = run.build_cli()
     sc = run.scratch
-    N, slices, pool3 = (3, 8, 5) if quick else (4, 8, 9)
+    N, slices, pool3, hpool = (3, 8, 5, 3) if quick else (4, 8, 9, 4)
 
     # ---- B3: the laws of the property on the model
     def b3():
@@ -125,6 +215,36 @@ def _check(run):
         if r.distinct < (30000 if quick else 150000):
             raise Inconclusive("law check explored only %d cases" % r.distinct)
         return r
+
+    # ---- B3 (histories): the long-lived context; memoisation keyed by the line number must be refuted
+    def b3ctx():
+        big = dict(lines="MCLines2", views="MCViews2", maxtotal=3) if quick else dict(lines="MCLines3", views="MCViews2", maxtotal=4)
+        good = ["HistoryLaw", "RendersFromCaptures", "ClassAgree", "LinesUnique", "PoolSeparate", "KeysSeparate"]
+        accepted = ("none", "captures", "srcline")
+        jobs = [lambda: run.tlc("MiniJsonCtx", ctx_cfg(accepted, good, **big), workers=2 if quick else 6, timeout=3000,
+                                label="MiniJsonCtx Caches=none,captures,srcline"),
+                lambda: run.tlc("MiniJsonCtx", ctx_cfg(("line",), ["HistoryLaw"], **big), workers=2, timeout=3000,
+                                label="MiniJsonCtx Caches=line (negative control: must be refuted)"),
+                lambda: run.tlc("MiniJsonCtx", ctx_cfg(("line",), ["ClassAgree", "StaleNamed", "LinesUnique"], maxtotal=3 if quick else 4),
+                                workers=2, timeout=3000, label="MiniJsonCtx Caches=line classifier")]
+        if not quick:   # three one-line sources, all three views, a pool of four lines
+            jobs.append(lambda: run.tlc("MiniJsonCtx", ctx_cfg(accepted, good, lines="MCLines4", views="MCViews3", nsrc=3, maxlen=1, maxtotal=3),
+                                        workers=4, timeout=3000, label="MiniJsonCtx 3 sources x 1 line, 3 views"))
+        rs = parallel(jobs, 4)
+        for r in rs[3:]:
+            require_clean(run, r, "MiniJsonCtx (3 sources)")
+        require_clean(run, rs[0], "MiniJsonCtx (accepted variants)")
+        if rs[0].distinct < 10000:
+            raise Inconclusive("MiniJsonCtx explored only %d states" % rs[0].distinct)
+        neg = rs[1]
+        if neg.errors and not neg.violated:
+            raise Inconclusive("negative control failed to run: %s" % neg.errors[:3])
+        if "HistoryLaw" not in neg.violated:
+            raise Inconclusive("negative control: the model with a view cache keyed by the line number was NOT refuted\n%s" % neg.out[-1500:])
+        require_clean(run, rs[2], "MiniJsonCtx Caches=line classifier")
+        run.cov["ctx_model"] = {"accepted_variants_states": rs[0].distinct,
+                                "negative_control": "Caches={line}: HistoryLaw violated after %d states; classifier names it stale-view on %d states"
+                                                    % (neg.distinct, rs[2].distinct)}
 
     def validate(tag, lines, k):
         """TLC validation of recorded lines (+ canaries) in k interleaved chunks; returns [(records, result)]"""
@@ -149,7 +269,7 @@ def _check(run):
 
     # ---- B1: TLC enumerates the inputs, the real code evaluates them, TLC validates the recorded bytes
     def b1():
-        r = run.tlc("MiniJson_Gen", gen_cfg(N, run.seed, slices, pool3), workers=3 if quick else 4, timeout=3000,
+        r = run.tlc("MiniJson_Gen", gen_cfg(N, run.seed, slices, pool3, hpool), workers=3 if quick else 4, timeout=3000,
                     label="MiniJson_Gen N=%d slice %d/%d Pool3=%d" % (N, run.seed % slices, slices, pool3))
         if r.violated or r.errors or not r.finished:
             raise Inconclusive("generator failed: %s" % r.out[-2000:])
@@ -164,33 +284,44 @@ def _check(run):
             raise Inconclusive("generator produced only %d vectors" % nvec)
         tr = os.path.join(sc, "c16-b1.ndjson")
         st = os.path.join(sc, "c16-b1-stats.json")
-        run.drv(["replay", "-in", vec, "-out", tr, "-stats", st, "-reps", 50, "-fresh", 3,
+        _drv(run, ["replay", "-in", vec, "-out", tr, "-stats", st, "-reps", 50, "-fresh", 3,
                  "-procevery", 150 if quick else 400, "-procs", 12])
         return json.load(open(st)), validate("b1", open(tr).read().splitlines(), 4 if quick else 6)
 
     # ---- B2: seeded random captures, the command line; cross-validation samples for the specification
     def b2():
         tr = os.path.join(sc, "c16-b2.ndjson")
-        p = run.drv(["trace", "-out", tr, "-n", 2000 if quick else 30000, "-ops", 1000 if quick else 12000,
-                     "-xv", 3000 if quick else 40000, "-reps", 50])
+        p = _drv(run, ["trace", "-out", tr, "-n", 2000 if quick else 30000, "-ops", 1000 if quick else 12000,
+                       "-xv", 3000 if quick else 40000, "-reps", 50, "-hist", 240 if quick else 6000])
         tstat = json.loads(p.stdout.strip().splitlines()[-1])
         cli = os.path.join(sc, "c16-cli.ndjson")
-        p = run.drv(["cli", "-rare", rare, "-out", cli, "-dir", sc, "-histo", 6 if quick else 30, "-filter", 6 if quick else 24,
-                     "-expr", 6 if quick else 24, "-procs", 8 if quick else 12, "-lines", 300])
+        p = _drv(run, ["cli", "-rare", rare, "-out", cli, "-dir", sc, "-histo", 6 if quick else 30, "-filter", 6 if quick else 24,
+                       "-expr", 6 if quick else 24, "-procs", 8 if quick else 12, "-lines", 300, "-multi", 9 if quick else 60, "-mhisto", 5 if quick else 30])
         cstat = json.loads(p.stdout.strip().splitlines()[-1])
-        return tstat, cstat, validate("b2", open(tr).read().splitlines() + open(cli).read().splitlines(), 2)
+        return tstat, cstat, validate("b2", open(tr).read().splitlines() + open(cli).read().splitlines(), 3 if quick else 4)
 
-    if quick:
-        _, (bstat, v1), (tstat, cstat, v2) = parallel([b3, b1, b2], 3)
-    else:
-        (tstat, cstat, v2), _ = parallel([b2, b3], 2)
-        bstat, v1 = b1()
+    try:
+        if quick:
+            _, _, (bstat, v1), (tstat, cstat, v2) = parallel([b3, b3ctx, b1, b2], 4)
+        else:
+            (tstat, cstat, v2), _, _ = parallel([b2, b3, b3ctx], 3)
+            bstat, v1 = b1()
+    except RealCrash as e:
+        # the driver could not recover this panic (it was raised in a goroutine of the real code): the observation is the crash
+        run.violation("process:crash", "rare's code panicked while evaluating JSON views: %s" % e, {"stderr": str(e)})
+        run.cov["traces_validated_against_impl"] += 1
+        run.sample({"crash": str(e)[:300]})
+        return
 
     if bstat["setup_mismatches"]:
         raise Inconclusive("the driver could not set up %d generated matches as specified: %s" % (
             bstat["setup_mismatches"], json.dumps(bstat["setup"])[:1500]))
-    if bstat["multi_named_vectors"] < 500 or bstat["fresh_process_runs"] < 24 or tstat["matches"] < 1000:
-        raise Inconclusive("replay too small: %s %s" % (bstat, tstat))
+    bstat_small = {k: v for k, v in bstat.items() if k not in ("samples", "setup")}
+    if bstat["multi_named_vectors"] < 500 or tstat["matches"] < 1000 or bstat["hist_runs"] < 1500 or tstat["hist_runs"] < 200 \
+            or cstat["multi_file_events"] < 40 or cstat["multi_file_histograms"] < 8:
+        raise Inconclusive("replay too small: %s %s %s" % (bstat_small, tstat, cstat))
+    if bstat["fresh_process_runs"] < 24 and not bstat["crashes"]:
+        raise Inconclusive("replay too small: %s" % bstat_small)
 
     consumed = canary = canary_rejected = real = 0
     stat = {"indomain": 0, "nonutf8": 0, "numbers": 0, "bools": 0}
@@ -204,7 +335,8 @@ def _check(run):
         for key in stat:
             stat[key] += r["stat"][key]
         for sb in r["specbad"]:
-            specbad.append((json.loads(part[sb["l"] - 1]), sb["class"]))
+            if '"canary":' not in part[sb["l"] - 1]:
+                specbad.append((json.loads(part[sb["l"] - 1]), sb["class"]))
         rejected = {b["l"] for b in r["bad"]}
         for pos, ln in enumerate(part, 1):
             if '"canary":' in ln:
@@ -218,7 +350,7 @@ def _check(run):
                 continue
             sig = "%s:%s" % (b["src"], b["class"])
             counts[sig] = counts.get(sig, 0) + 1
-            run.violation(sig, "%s - MiniJson.tla rejects it: %s" % (_describe(rec), b["class"]), rec)
+            run.violation(sig, "%s - MiniJson.tla rejects it: %s" % (_describe(rec, b.get("i", 0)), b["class"]), rec)
         last = [ln for ln in part if '"canary":' not in ln][-2:]
     if specbad:
         rec, cl = specbad[0]
@@ -229,7 +361,7 @@ def _check(run):
 
     nrec = real
     run.cov["b1"] = {k: bstat[k] for k in ("vectors", "val_vectors", "records", "evaluations", "multi_named_vectors",
-                                            "fresh_process_runs", "differs_from_model")}
+                                            "fresh_process_runs", "differs_from_model", "hist_vectors", "hist_runs", "hist_events", "crashes")}
     run.cov["b2"] = {"random": tstat, "cli": cstat}
     run.cov["records_validated"] = nrec
     run.cov["corrupted_records_rejected"] = "%d of %d" % (canary_rejected, canary)
